@@ -84,7 +84,18 @@ class Model:
         self.tainted.clear()
 
 
+SENTINEL = object()
+
+
 def oracle(sp, w, m, types, ids, when):
+    try:
+        _oracle(sp, w, m, types, ids, when)
+    except Exception as ex:         # noqa  (a query that raises tells no story at all)
+        import traceback
+        sp.fail('query-raises', '%s: a query raised %r at %s' % (when, ex, traceback.extract_tb(ex.__traceback__)[-1][:3]))
+
+
+def _oracle(sp, w, m, types, ids, when):
     for T in types:
         got = w.get(T)
         exp = [(e, c) for e, comps in m.ents.items() for t, c in comps.items() if issubclass(t, T)]
@@ -112,6 +123,8 @@ def oracle(sp, w, m, types, ids, when):
             else:
                 sp.check(g is None, 'get_component', '%s: get_component(%r, %s) should be None' % (
                     when, e, T.__name__))
+                sp.check(w.get_component(e, T, SENTINEL) is SENTINEL, 'get_component-default',
+                         '%s: get_component(%r, %s, default) does not return the given default' % (when, e, T.__name__))
         alive = bool(comps) and e not in m.dead
         sp.check(w.entity_exists(e) is alive, 'entity_exists',
                  '%s: entity_exists(%r) != %s' % (when, e, alive))
